@@ -184,6 +184,18 @@ Theorem fused_stops_at_err : forall (T B : Type) (f : nat * T -> B) (d : nat * T
 Proof. exact fused_stops_at_err_l. Qed.
 Print Assumptions fused_stops_at_err.
 
+(** after the repair: EVERY execution of the loader's pipe over its real upstream (the non-fused scan
+    behind Iterator::fuse, the loader's enumerate counter, iter_err) is, label by label, an execution of
+    Pipe_Model's pipe over the list the model uses — the enumerated texts before the first Err text — with
+    the same threads, channel and output: so the C05 / C09 theorems (in particular the two above) are
+    theorems about the loader's pipe stage with the upstream it really has *)
+Theorem fused_is_pipe : forall (B : Type) (f : nat * str -> B) (d : nat * str) texts W tr s,
+  urun str B f d true (uinit str B texts W) tr = Some s ->
+  run _ _ f d (init _ _ (enumerate (fst (scan1 0 texts))) W) tr
+  = Some (with_xs str B (u_base str B s) (enumerate (fst (scan1 0 texts)))).
+Proof. exact fused_is_pipe_model. Qed.
+Print Assumptions fused_is_pipe.
+
 (** * Examples: the premises are met by non-trivial inputs *)
 (** a "tokenizer" that returns the code points; character windows of 4 with context 1;
     texts "abcdef", Err, "xy" *)
